@@ -614,3 +614,11 @@ func FindByKey(log []*Request, key string) []*Request {
 	}
 	return out
 }
+
+// PrependLog puts earlier log entries back in front of the current log (used by checks that run several
+// batches and judge the whole log).
+func (c *Cluster) PrependLog(old []*Request) {
+	c.mu.Lock()
+	c.log = append(append([]*Request(nil), old...), c.log...)
+	c.mu.Unlock()
+}
